@@ -1365,22 +1365,27 @@ def local_convergence(seed, n, scale=1.0):
                     if isinstance(e, EdgeOdometry) and e.vertex_ids[0] == v0.id and type(e.estimate) is type(v0.pose):
                         [w for w in g._vertices if w.id == e.vertex_ids[1]][0].pose = e.estimate
                         break
+        anchored = beacon = False
         if rng.random() < 0.25:
             # anchors chosen through a mask: the flag is a numpy.bool_ (or the integer 1)
             k_a = rng.randrange(1, nv)
             g._vertices[k_a].fixed = rng.choice([np.bool_(True), 1])       # anchored where it currently is
             noise_free = False
+            anchored = True
         lms_ = [v for v in g._vertices if isinstance(v.pose, (PoseR2, PoseR3))]
-        if kind in ('SE2', 'SE3') and lms_ and rng.random() < 0.25:
-            # a surveyed beacon: one landmark is held where it currently is (a fixed vertex narrower than a pose, anywhere in the list)
+        if kind in ('SE2', 'SE3') and lms_ and not anchored and rng.random() < 0.3:
+            # a surveyed beacon: one landmark is held where it currently is (a fixed vertex narrower than a pose, anywhere in the list).  ONE vertex
+            # held at a perturbed place keeps the problem inside the calibrated neighbourhood; several of them (this, the anchor above, the staged
+            # anchor below) add up to an inconsistency on which un-damped Gauss-Newton may cycle -- outside the claim
             rng.choice(lms_).fixed = True
             noise_free = False
+            beacon = True
         info_pow = rng.choice([0, 0, 0, 0, -30, -40])
         if info_pow:
             for e in g._edges:
                 e.information = np.asarray(e.information, dtype=np.float64) * 2.0 ** info_pow
         c0 = _independent_view(g).calc_chi2()
-        staged = (not reuse) and rng.random() < 0.2
+        staged = (not reuse) and (not beacon) and rng.random() < 0.2
         try:
             if staged:
                 # two-stage use of ONE Graph object: one iteration, then another pose is anchored where it is, then the run to convergence
